@@ -411,7 +411,7 @@ func createFilesInsideTarGz(info *nfpm.Info, tw *tar.Writer, sizep *int64) (err 
 		case files.TypeDir, files.TypeImplicitDir:
 			err = tw.WriteHeader(&tar.Header{
 				Name:     file.Destination,
-				Mode:     int64(file.FileInfo.Mode),
+				Mode:     int64(file.FileInfo.Mode & 0o7777),
 				Typeflag: tar.TypeDir,
 				Uname:    file.FileInfo.Owner,
 				Gname:    file.FileInfo.Group,
